@@ -12,14 +12,18 @@ Definition free_at (st : lst) (k : nat) : Prop := nth_error (l_act st) k = Some 
 Lemma free_same : forall a b k, l_act a = l_act b -> free_at a k -> free_at b k.
 Proof. unfold free_at. intros a b k E H. rewrite <- E. exact H. Qed.
 
-Lemma free_take : forall st t s1 k, take st = Ok (t, s1) -> free_at s1 k -> free_at st k.
+Lemma free_take_at : forall o st t s1 k, take_at o st = Ok (t, s1) -> free_at s1 k -> free_at st k.
 Proof.
-  unfold free_at. intros st t s1 k Ht H. apply take_facts in Ht. destruct Ht as (_ & Ha & _).
+  unfold free_at. intros o st t s1 k Ht H. apply take_at_facts in Ht. destruct Ht as (_ & Ha & _).
   rewrite Ha in H. eapply free_after_take; eauto.
 Qed.
+Lemma free_take : forall st t s1 k, take st = Ok (t, s1) -> free_at s1 k -> free_at st k.
+Proof. exact (free_take_at None). Qed.
 
+Lemma take_at_free : forall o st t s1, take_at o st = Ok (t, s1) -> free_at st t.
+Proof. intros o st t s1 Ht. apply take_at_facts in Ht. exact (proj1 Ht). Qed.
 Lemma take_free : forall st t s1, take st = Ok (t, s1) -> free_at st t.
-Proof. intros st t s1 Ht. apply take_facts in Ht. exact (proj1 Ht). Qed.
+Proof. exact (take_at_free None). Qed.
 
 Lemma sws_app : forall a b, sws (a ++ b) = sws a ++ sws b.
 Proof. intros. unfold sws. apply flat_map_app. Qed.
@@ -51,6 +55,7 @@ Proof.
     destruct (take st) as [[t s1]|e] eqn:Ht; cbn [bind] in H; [|discriminate].
     inversion H; subst. cbn in Hk. destruct Hk as [<-|[]]. eapply take_free; eauto.
   - destruct (alook v (l_lv st)); inversion H; subst. destruct Hk.
+  - destruct (rf_lookup r st); inversion H; subst. destruct Hk.
 Qed.
 
 Lemma low_src_y : forall x st l p ts st1,
@@ -141,14 +146,14 @@ Proof.
          assert (Wy := low_cval_writes _ _ _ _ _ _ Hy k Hk);
          destruct (low_cval_held _ _ _ _ _ _ Hx) as [[_ ->]|(t & _ & Ht)];
          [exact Wy|eapply free_take; eauto] ]).
-  - (* SLoop *) intros cb v oreg start stop step body IH Hp st code st' H k Hk. destruct oreg; [discriminate|].
+  - (* SLoop *) intros cb v oreg start stop step body IH Hp st code st' H k Hk.
     cbn [plain] in Hp. specialize (IH Hp). cbn [lower_stmt] in H.
     destruct (alook v (l_lv st)); [discriminate|].
-    destruct (take st) as [[r st1]|e] eqn:Ht; cbn [bind] in H; [|discriminate].
+    destruct (take_at oreg st) as [[r st1]|e] eqn:Ht; cbn [bind] in H; [|discriminate].
     destruct (lower_block fd body (bind_lvr v r st1)) as [[cbody st2]|e] eqn:Hb; cbn [bind] in H; [|discriminate].
     destruct (is_nil cbody); inv_ok H; [destruct Hk|].
-    cbn in Hk. rewrite app_nil_r in Hk. destruct Hk as [<-|Hk]; [eapply take_free; eauto|].
-    eapply free_take; [exact Ht|]. eapply free_same with (a := bind_lvr v r st1); [reflexivity|].
+    cbn in Hk. rewrite app_nil_r in Hk. destruct Hk as [<-|Hk]; [eapply take_at_free; eauto|].
+    eapply free_take_at; [exact Ht|]. eapply free_same with (a := bind_lvr v r st1); [reflexivity|].
     eapply IH; eauto.
   - (* SForeach *) intros enum v a body IH Hp st code st' H k Hk. cbn [plain] in Hp. specialize (IH Hp). cbn [lower_stmt] in H.
     destruct (alook a (l_len st)); [|discriminate].
@@ -203,8 +208,28 @@ Proof.
       destruct (transient 4 s2); cbn [bind] in H; [|discriminate].
       inv_ok H. cbn in Hk. eapply free_take; [exact H1|]. eapply IH; eauto.
   - intros _ st c st' H. cbn [lower_stmt] in H. discriminate.
-  - intros a b n o m Hw. discriminate.
-  - intros q ip a b n Hw. discriminate.
+  - (* SFutAddX *) intros a b n o m _ st c st' H k Hk. cbn [lower_stmt] in H.
+    destruct (take st) as [[t st1]|e] eqn:Ht; cbn [bind] in H; [|discriminate].
+    destruct (take st1) as [[ti st1i]|e] eqn:Hti; cbn [bind] in H; [|discriminate].
+    destruct (low_src o (release ti st1i)) as [[[[lo y] ts] st2]|e] eqn:Hs; cbn [bind] in H; [|discriminate].
+    match type of H with Ok (?cc, _) = _ => assert (Ec : c = cc) by (inversion H; reflexivity) end.
+    clear H. subst c. rewrite sws_map_XI in Hk.
+    assert (Ft : free_at st t) by (eapply take_free; eauto).
+    assert (Fti : free_at st ti) by (eapply free_take; [exact Ht|eapply take_free; eauto]).
+    assert (Ea : l_act (release ti st1i) = l_act st1).
+    { destruct (take_facts _ _ _ Hti) as (Hf & Ha & _). unfold release. cbn [l_act with_act]. rewrite Ha.
+      apply set_nth_undo. exact Hf. }
+    rewrite !flat_map_app in Hk. apply in_app_or in Hk. destruct Hk as [Hk|Hk].
+    + cbn in Hk. destruct Hk as [<-|[<-|[]]]; assumption.
+    + apply in_app_or in Hk. destruct Hk as [Hk|Hk].
+      * eapply free_take; [exact Ht|]. eapply free_same with (a := release ti st1i); [exact Ea|].
+        eapply low_src_writes; eauto.
+      * destruct m; cbn in Hk; destruct Hk as [<-|[<-|[]]]; assumption.
+  - (* SMeasFutX *) intros q ip a b n _ st c st' H k Hk. cbn [lower_stmt] in H.
+    destruct (low_meas q ip false st) as [[[m c0] s1]|e] eqn:Em; cbn [bind] in H; [|discriminate].
+    destruct (take s1) as [[ti s1i]|e] eqn:Hti; cbn [bind] in H; [|discriminate].
+    inv_ok H. rewrite sws_app, (low_meas_writes _ _ _ _ _ _ _ Em) in Hk. cbn in Hk. destruct Hk as [<-|[]].
+    eapply free_same with (a := s1); [exact (proj1 (low_meas_good _ _ _ _ _ _ _ Em))|]. eapply take_free; eauto.
   - intros _ st c st' H k Hk. cbn [lower_block] in H. inv_ok H. destruct Hk.
   - intros s IHs b IHb Hp st c st' H k Hk. cbn [bplain] in Hp. apply andb_prop in Hp. destruct Hp as [Hp1 Hp2].
     specialize (IHs Hp1). specialize (IHb Hp2). cbn [lower_block] in H.
